@@ -19,6 +19,7 @@ theorem eval_mapSrc (S : Sig α G) (ρ : String → α) (f : Src → Src) (g : G
   | src s => rfl
   | translate g dx dy ih => simp only [GT.mapSrc, GT.eval, ih]
   | rotate g a ih => simp only [GT.mapSrc, GT.eval, ih]
+  | scale g fx fy ih => simp only [GT.mapSrc, GT.eval, ih]
   | reverse g ih => simp only [GT.mapSrc, GT.eval, ih]
   | concat a b iha ihb => simp only [GT.mapSrc, GT.eval, iha, ihb]
   | polygon g ih => simp only [GT.mapSrc, GT.eval, ih]
@@ -33,6 +34,7 @@ theorem eval_toGroove (S : Sig α G) (ρ : String → α) (h : S.src .rollContou
   | src s => cases s <;> simp [GT.mapSrc, GT.eval, toGroove, h]
   | translate g dx dy ih => simp only [GT.mapSrc, GT.eval, ih]
   | rotate g a ih => simp only [GT.mapSrc, GT.eval, ih]
+  | scale g fx fy ih => simp only [GT.mapSrc, GT.eval, ih]
   | reverse g ih => simp only [GT.mapSrc, GT.eval, ih]
   | concat a b iha ihb => simp only [GT.mapSrc, GT.eval, iha, ihb]
   | polygon g ih => simp only [GT.mapSrc, GT.eval, ih]
